@@ -25,7 +25,10 @@ RULE = ('Case = a file-producing publisher: OutputToFile (default pickle seriali
         'file-system operation k, k=0..N, no finally/flush) is enumerated.  Oracle: afterwards the destination is absent (only if '
         'it was absent), still the previous content, or the complete new serialization - never anything else; after exception '
         'faults no staged temp file is left.  Each (case, fault position) is one evaluation.  Non-trivial = the fault hits strictly '
-        'after the first byte was staged; distinct by canonical (case, fault).')
+        'after the first byte was staged; distinct by canonical (case, fault).  Plus: ONE OutputToJSON/OutputToFile instance called '
+        'from 2-3 threads at once (a station sharing its callbacks between slots) under the deterministic scheduler, every schedule '
+        'with <=1 (thorough: <=2) preemptions at line granularity; oracle = same file names and bytes as publishing the records one '
+        'after the other through a fresh instance; non-trivial there = schedule with an effective preemption.')
 ASSUMPTIONS = ['"Process kill" = os._exit in a forked child between Python-level file operations; page-cache/power loss is out of scope.',
                'The staging directory (tempfile.tempdir) is on the same file system as the destination (the statement\'s precondition).']
 
@@ -438,6 +441,99 @@ def check(case, acct=None, known=()):
   return finish(r, case, n_eval, nontrivial_positions)
 
 
+# ------------------------------------------------------------------ one callback instance shared by concurrent runs
+SHARED_KINDS = ['json', 'file', 'json-callable']
+DUTS = ['DUT_A', 'DUT_B', 'DUT_C']
+
+
+def check_shared(case):
+  """A station registers ONE callback instance with the tests of all its slots, so several threads call it at once.
+
+  case = {'shared': kind, 'n': 2|3, 'plan': {yield index: thread choice}}.  Oracle = differential against the same records
+  published one after the other through a fresh instance: same file names, same bytes.
+  """
+  from vf import vmode  # pylint: disable=g-import-not-at-top
+  from vf import vsched as V  # pylint: disable=g-import-not-at-top
+  import threading as real_threading  # pylint: disable=g-import-not-at-top
+  r = CaseResult()
+  vmode.setup()
+  from openhtf.core import test_record  # pylint: disable=g-import-not-at-top
+  from openhtf.output import callbacks  # pylint: disable=g-import-not-at-top
+  from openhtf.output.callbacks import json_factory  # pylint: disable=g-import-not-at-top
+  from openhtf.util import atomic_write as aw  # pylint: disable=g-import-not-at-top
+  V.monitor_lines(V.code_objects_of(callbacks.OutputToFile, json_factory.OutputToJSON, aw.atomic_write))
+  recs = [test_record.TestRecord(dut_id=d, station_id='st', metadata={'test_name': 'tn'}) for d in DUTS[:case['n']]]
+  plan = {int(k): v for k, v in (case.get('plan') or {}).items()}
+
+  def make(destdir):
+    if case['shared'] == 'json':
+      return json_factory.OutputToJSON(os.path.join(destdir, '{dut_id}.json'))
+    if case['shared'] == 'json-callable':
+      return json_factory.OutputToJSON(lambda **kw: os.path.join(destdir, 'cb-%s.json' % kw['dut_id']))
+    return callbacks.OutputToFile(os.path.join(destdir, '%(dut_id)s.%(station_id)s.rec'))
+
+  sb = Sandbox()
+  try:
+    refdir = os.path.join(sb.root, 'ref')
+    os.mkdir(refdir)
+    for rec in recs:
+      make(refdir)(rec)
+    want = {}
+    for f in sorted(os.listdir(refdir)):
+      with open(os.path.join(refdir, f), 'rb') as fh:
+        want[f] = fh.read()
+
+    def fn(s):
+      cb = make(sb.dest)
+      errs = []
+
+      def run(rec):
+        try:
+          cb(rec)
+        except Exception as e:  # pylint: disable=broad-except
+          errs.append(repr(e))
+
+      ths = []
+      for i, rec in enumerate(recs):
+        t = real_threading.Thread(target=run, args=(rec,), name='slot%d' % i)
+        t.daemon = True
+        t.start()
+        ths.append(t)
+      for t in ths:
+        t.join()
+      return errs
+
+    s = V.Scheduler(plan=plan, time_limit=1e4, max_steps=50000)
+    errs, exc = s.run(lambda: fn(s), watchdog_s=15.0)
+    if s.failure is not None:
+      if s.failure[0] in ('deadlock', 'steplimit'):
+        r.bad('C17/shared/hang', s.failure[1][:300])
+        return r, s
+      raise RuntimeError('scheduler failure %r' % (s.failure,))
+    if exc is not None:
+      raise exc
+    got = {}
+    for f in sorted(os.listdir(sb.dest)):
+      with open(os.path.join(sb.dest, f), 'rb') as fh:
+        got[f] = fh.read()
+    if errs:
+      r.bad('C17/shared/callback-raised', '%s plan=%r: %s' % (case['shared'], case.get('plan'), errs[0]))
+    elif sorted(got) != sorted(want):
+      r.bad('C17/shared/file-names', '%s plan=%r: every callback succeeded; files %r, expected %r' % (case['shared'], case.get('plan'), sorted(got), sorted(want)))
+    else:
+      for f in want:
+        if got[f] != want[f]:
+          r.bad('C17/shared/content', '%s plan=%r: %s holds %r..., expected %r...' % (case['shared'], case.get('plan'), f, got[f][:60], want[f][:60]))
+          break
+    if os.listdir(sb.stage):
+      r.bad('C17/shared/staged-file-left', repr(os.listdir(sb.stage)))
+    r.nontrivial = bool(s.effective_preemptions)
+    r.classes = ['shared:' + case['shared'], 'slots:%d' % case['n'], 'preemptions:%d' % min(len(s.effective_preemptions), 3)]
+    return r, s
+  finally:
+    sb.close()
+
+
 def finish(r, case, n_eval, nontrivial_positions):
   r.nontrivial = nontrivial_positions > 0
   r.classes = ['kind:' + case['kind'], 'prev:%s' % (case['prev'] is not None), 'positions:%d' % (n_eval // 5 * 5)]
@@ -472,7 +568,13 @@ def cases(draw):
 
 def plan(tier, seed):
   n = 12 if tier == 'quick' else 250
-  return [{'kind': 'hyp', 'name': 'hyp%d' % i, 'hseed': seed * 1000 + i, 'n': n} for i in range(16)]
+  jobs = [{'kind': 'hyp', 'name': 'hyp%d' % i, 'hseed': seed * 1000 + i, 'n': n} for i in range(16)]
+  for kind in SHARED_KINDS:
+    for nslots, bound in ((2, 1), (3, 1)) if tier == 'quick' else ((2, 2), (3, 1)):
+      nsh = 1 if bound == 1 else 8
+      for sh in range(nsh):
+        jobs.append({'kind': 'shared', 'name': 'shared.%s.%d.%d' % (kind, nslots, sh), 'shared': kind, 'n': nslots, 'bound': bound, 'shard': sh, 'nshards': nsh})
+  return jobs
 
 
 def run_job(job, acct):
@@ -480,6 +582,26 @@ def run_job(job, acct):
   if job['kind'] == '_regress':
     from vf import runner  # pylint: disable=g-import-not-at-top
     runner.run_regress(sys.modules[__name__], job, acct)
+    return
+  if job['kind'] == 'shared':
+    import itertools  # pylint: disable=g-import-not-at-top
+    base = {'shared': job['shared'], 'n': job['n'], 'plan': {}}
+    r0, s0 = check_shared(base)
+    npts = s0.k + 2
+    i = 0
+    for b in range(0, job['bound'] + 1):
+      for ks in itertools.combinations(range(npts), b):
+        for cs in itertools.product(range(job['n']), repeat=b):
+          i += 1
+          if i % job['nshards'] != job['shard']:
+            continue
+          case = dict(base, plan={str(k): c for k, c in zip(ks, cs)})
+          r, _ = check_shared(case)
+          acct.case(case, r.nontrivial, r.classes)
+          for sig, detail in r.violations:
+            (acct.known if sig in known else acct.violation)(sig, case, detail)
+    if job['shard'] == 0:
+      acct.exhaustive_parts.append('shared %s callback, %d slots: all schedules with <=%d preemptions over %d yield points' % (job['shared'], job['n'], job['bound'], npts))
     return
   # each (case, fault position) is recorded by check() itself; the per-case entry of hyp.search is kept as class info
   inner = type(acct)()
@@ -497,6 +619,8 @@ def run_job(job, acct):
 
 
 def replay(case):
+  if 'shared' in case:
+    return check_shared(case)[0].violations
   if 'case' in case and 'fault' in case:
     case = case['case']
   return check(case).violations
